@@ -31,6 +31,8 @@ F8N = fp.IEEEContext(4, 8, fp.RM.RTN)
 FX = fp.FixedContext(True, -2, 10, fp.RM.RNE, fp.OV.SATURATE)
 MF = fp.MPFixedContext(-3, fp.RM.RNA)
 F32P = fp.FP32.with_params(rm=fp.RM.RTP)
+K2 = 2
+K3 = 3
 '''
 
 # named contexts usable in `with`: (text, exact_only) -- exact_only: only + - * / neg abs min max and comparisons inside
@@ -94,10 +96,19 @@ class Gen:
         self.loop_depth = 0
         self.in_helper = False
         self.cur_args: list = []
+        self._used_names: set = set()
+        self.in_derived_iter = 0
 
     # -- utilities ------------------------------------------------------------
     def fresh(self, prefix='v'):
         self.counter += 1
+        hostile = self.p.get('hostile_names')
+        if hostile and prefix in ('v', 'e', 'i', 'k') and self.rng.random() < self.p.get('hostile_prob', 0.25):
+            free = [h for h in hostile if h not in self._used_names]
+            if free:
+                nm = self.rng.choice(free)
+                self._used_names.add(nm)
+                return nm
         return f'{prefix}{self.counter}'
 
     def emit(self, ind, text):
@@ -264,7 +275,7 @@ class Gen:
         rng = self.rng
         choices = [(p['w_assign'], 'assign'), (p['w_aug'], 'aug'), (p['w_tuple'], 'tuple'), (p['w_listdef'], 'listdef'),
                    (p['w_index_assign'], 'idxassign'), (p['w_assert'], 'assert'), (p['w_alias'], 'alias'),
-                   (p.get('w_copy', 0), 'copy'), (p.get('w_const', 0), 'const')]
+                   (p.get('w_copy', 0), 'copy'), (p.get('w_const', 0), 'const'), (p.get('w_freevar', 0), 'freevar')]
         if depth > 0:
             choices += [(p['w_if'], 'if'), (p['w_if1'], 'if1'), (p['w_for'], 'for'), (p['w_while'], 'while'), (p['w_with'], 'with'),
                         (p['w_early_return'], 'early')]
@@ -319,6 +330,14 @@ class Gen:
             self.emit(ind, f'{v} = fp.round({a}) {op} fp.round({b})')
         else:
             self.emit(ind, f'{v} = fp.sqrt(fp.round({rng.choice(["2", "3", "0.5", "16", "0.1"])}))')
+        new.vars[v] = 'R'
+        return new
+
+    def s_freevar(self, sc, ind, depth):
+        new = _Scope(sc)
+        v = self.fresh('v')
+        self.features.add('free_var')
+        self.emit(ind, f'{v} = ({self.rng.choice(["K2", "K3"])} + {self.real(sc, 1)})')
         new.vars[v] = 'R'
         return new
 
@@ -404,6 +423,8 @@ class Gen:
         self.need_len(self._root(xs), k + 1)
         self.need_len(xs, k + 1)
         self.features.add('idxassign')
+        if self.in_derived_iter:
+            self.features.add('derived_iter_body_writes')
         self.emit(ind, f'{xs}[{k}] = {self.real(sc, 2)}')
         return sc
 
@@ -433,6 +454,8 @@ class Gen:
         self.features.add('call')
         if h[3]:
             self.features.add('call_mutates')
+            if self.in_derived_iter:
+                self.features.add('derived_iter_body_writes')
         self.emit(ind, f'{v} = {h[0]}({", ".join(args)})')
         new.vars[v] = h[2]
         return new
@@ -513,8 +536,11 @@ class Gen:
                     self.features.add('range3')
                     self.emit(ind, f'for {i} in range(0, {rng.choice([4, 5, 7])}, {rng.choice([2, 3])}):')
             body.vars[i] = 'R'
+        derived = 'zip(' in self.lines[-1] or 'enumerate(' in self.lines[-1]
         self.loop_depth += 1
+        self.in_derived_iter += 1 if derived else 0
         self.block(body, ind + 1, depth - 1, 3)
+        self.in_derived_iter -= 1 if derived else 0
         self.loop_depth -= 1
         return sc
 
